@@ -297,7 +297,7 @@ func runC06(e *env) {
 		}
 		cases = append(cases, fmt.Sprintf("{| c6_root := %s;\n c6_prog := %s;\n c6_enums := %s;\n c6_ana := %s;\n c6_files := %s;\n c6_classes := %s;\n c6_unions := %s;\n c6_denums := %s |}",
 			coqStr(o.Gen["dart_root"].Text), o.Facts, o.Enums, o.Ana, coqListNL(files), coqListNL(classes), coqListNL(unions), coqListNL(enums)))
-		inputs = append(inputs, map[string]interface{}{"module": spec, "files": ir.Files, "classes": ir.Classes, "unions": ir.Unions, "enums": ir.Enums, "class": firstNonEmpty(spec.Class, classifyDartLinks(ir))})
+		inputs = append(inputs, map[string]interface{}{"module": spec, "files": ir.Files, "classes": ir.Classes, "unions": ir.Unions, "enums": ir.Enums, "class": firstNonEmpty(spec.Class, classifyDartLinks(ir, o))})
 		if len(cases) == 4 {
 			e.writeCases2(fmt.Sprintf("cases_C06_%d", len(e.m.CaseFiles)), anaHeader+"From GM Require Import Model.Fields Model.Dart Corr.Check_C06.\n", "mismatches", "prop_failures", cases, inputs)
 			cases, inputs = nil, nil
@@ -328,7 +328,16 @@ func corpusDart() []*modSpec {
 }
 
 // which kind of link problem a module shows (for the known-findings file): recomputed here from the parsed files
-func classifyDartLinks(ir *dartIR) string {
+func classifyDartLinks(ir *dartIR, o *obsResult) string {
+	// the finding "same class name in two packages" needs two defined types with one local name in two packages
+	sameNameTwice := false
+	seenLocal := map[string]string{}
+	for _, n := range o.Nameds {
+		if prev, ok := seenLocal[strings.ToLower(n.Local)]; ok && prev != n.PkgPath {
+			sameNameTwice = true
+		}
+		seenLocal[strings.ToLower(n.Local)] = n.PkgPath
+	}
 	byName := map[string]dartFile{}
 	for _, f := range ir.Files {
 		byName[f.Name] = f
@@ -378,7 +387,7 @@ func classifyDartLinks(ir *dartIR) string {
 		return ""
 	case onlyAnon:
 		return "dart-anonymous-helper-in-two-files"
-	case onlyDup && dupNamed:
+	case onlyDup && dupNamed && sameNameTwice:
 		return "dart-same-class-name-in-two-packages"
 	case undefinedUnion:
 		return "dart-implements-union-not-emitted"
